@@ -235,8 +235,16 @@ func runC16(c *core.Ctx) *core.Violation {
 
 		proc = s.NewProc("tool")
 		start := s.Now()
+		var toolEnds []*simnet.Conn
+		tgt.L.OnAccept = func(cl, sv *simnet.Conn) { toolEnds = append(toolEnds, cl) }
+		unread := 0
 		s.GoProc(proc, "rump-main", func() {
 			(&run.CmdRump{}).Main()
+			// at the moment Main returns every reply of the target must have been read by the tool: a reply still
+			// unread means the tool reported completion without having seen the outcome of a command it sent
+			for _, cl := range toolEnds {
+				unread += cl.Unread()
+			}
 			done = true
 			doneAt = s.Now()
 		})
@@ -254,6 +262,10 @@ func runC16(c *core.Ctx) *core.Violation {
 		}
 		if !done {
 			viol = core.Violate("no-termination", "rump", "CmdRump.Main did not return within an hour of simulated time: %v", s.TaskStates())
+			return
+		}
+		if unread > 0 {
+			viol = core.Violate("returned-before-confirmed", "rump", "CmdRump.Main returned while %d byte(s) of target replies were still unread: it finished without seeing the outcome of its last commands", unread)
 			return
 		}
 		if d := doneAt - lastScanAt; d > 10*time.Second+time.Duration(len(keys))*200*time.Millisecond+time.Duration(len(keys)*1000/conf.Options.Qps+1)*time.Second {
@@ -322,6 +334,20 @@ func runC16(c *core.Ctx) *core.Violation {
 	})
 	c.Absorb(s)
 	c.Log = lc.Tail(40)
+	if viol != nil && src != nil && tgt != nil {
+		c.Log = append(c.Log, "---- source commands")
+		for i, a := range src.Applied {
+			if i < 300 {
+				c.Log = append(c.Log, fmt.Sprintf("%4d t=%v %s -> %s", i, a.T, clipS([]byte(a.String())), clipS([]byte(strings.TrimSpace(a.Reply)))))
+			}
+		}
+		c.Log = append(c.Log, "---- target commands")
+		for i, a := range tgt.Applied {
+			if i < 300 {
+				c.Log = append(c.Log, fmt.Sprintf("%4d t=%v %s -> %s", i, a.T, clipS([]byte(a.String())), clipS([]byte(strings.TrimSpace(a.Reply)))))
+			}
+		}
+	}
 	if keyFile {
 		c.Probe("key_file_scan")
 	}
